@@ -300,7 +300,9 @@ func capStr(s string, n int) string {
 	return s
 }
 
-func dump(v any) string { return capStr(fmt.Sprintf("%+v", reflect.ValueOf(v).Elem().Interface()), 3000) }
+func dump(v any) string {
+	return capStr(fmt.Sprintf("%+v", reflect.ValueOf(v).Elem().Interface()), 3000)
+}
 
 // diffClass turns a valgen.Diff message into a field class: the path with
 // indices stripped ("value" for a scalar type).
